@@ -164,3 +164,40 @@ func Exec(p prog.Program) kit.Outcome {
 	return o
 }
 
+
+// ---------------------------------------------------------------- blocking pops under concurrency
+
+// BlockCase: poppers block on one or two lists while a pusher pushes elements at generated delays.
+type BlockCase struct {
+	Poppers []Popper `json:"poppers"`
+	Pushes  []Push   `json:"pushes"`
+}
+
+type Popper struct {
+	Left    bool     `json:"left"`
+	Keys    []string `json:"keys"`
+	Timeout int      `json:"timeout"` // seconds (1 or 2)
+}
+
+type Push struct {
+	AtMs int    `json:"at_ms"`
+	Key  string `json:"key"`
+	N    int    `json:"n"` // elements pushed by this command
+}
+
+func GenBlock(t *rapid.T) BlockCase {
+	var c BlockCase
+	np := rapid.IntRange(1, 4).Draw(t, "poppers")
+	for i := 0; i < np; i++ {
+		p := Popper{Left: rapid.Bool().Draw(t, "left"), Timeout: rapid.IntRange(1, 2).Draw(t, "timeout"), Keys: []string{gen.Pick(t, "bk", "b1", "b2")}}
+		if rapid.IntRange(0, 2).Draw(t, "two") == 0 {
+			p.Keys = []string{"b1", "b2"}
+		}
+		c.Poppers = append(c.Poppers, p)
+	}
+	n := rapid.IntRange(0, 4).Draw(t, "pushes")
+	for i := 0; i < n; i++ {
+		c.Pushes = append(c.Pushes, Push{AtMs: rapid.SampledFrom([]int{0, 30, 150, 400, 700}).Draw(t, "at"), Key: gen.Pick(t, "pk", "b1", "b2"), N: rapid.IntRange(1, 2).Draw(t, "n")})
+	}
+	return c
+}
